@@ -22,6 +22,8 @@ mod smallmap;
 mod task;
 mod terminal;
 mod trace;
+#[cfg(n2_verif)]
+pub mod verif;
 mod work;
 
 #[cfg(feature = "jemalloc")]
